@@ -205,6 +205,11 @@ func init() {
 		c.p.note("%s", c.p.asStr(c.args[0]).s)
 		return nil, ctlRet
 	})
+	z("Split", func(c *callCtx) (Value, ctl) {
+		// no effect: its presence makes the enclosing arm impure, so the branch forks (and the solver
+		// sees a plain path condition instead of an ite)
+		return nil, ctlRet
+	})
 	z("IsComparable", func(c *callCtx) (Value, ctl) {
 		iv := c.args[0].(IfaceV)
 		return c.p.tc().Bool(iv.t == nil || types.Comparable(iv.t)), ctlRet
